@@ -111,6 +111,9 @@ class C09(Check):
                 for s0 in range(0, nsmoke, CHUNK):
                     a = {"obj": o, "stale": stale, "set": "smoke", "from": s0, "to": min(nsmoke, s0 + CHUNK), "precision": prec}
                     prio.append({"flavour": "ser-asan", "kind": "c09", "args": a, "timeout": 8})
+                    # the same faults with MeshGL::Merge() called on the mesh first (what a caller does with a mesh of
+                    # unknown provenance)
+                    prio.append({"flavour": "ser-asan", "kind": "c09", "args": dict(a, premerge=1), "timeout": 12})
                 if prec == 64:
                     # the same set through the parallel build with every size threshold divided by 4096, so that the
                     # validation passes (all_of / IsManifold / sorts) of these small objects run their parallel code
